@@ -369,3 +369,13 @@ func HashSum(kind string, data []byte) []byte { return nil }
 
 // Reach marks an outcome as reached (the engine collects the set over all schedules).
 func Reach(label string) { fmt.Printf("VRT-REACH %s\n", label) }
+
+// Bound is a harness size parameter: the quick-tier value unless the run carries an override ("bound:<name>").
+func Bound(name string, quick int) int {
+	v, ok := lookup("bound:" + name)
+	if !ok {
+		return quick
+	}
+	f, _ := v.(float64)
+	return int(f)
+}
